@@ -48,7 +48,13 @@ def build_unit(unit):
             continue
         root = item_source(it)
         if k == "fn":
-            raw, line = extract.extract_fn(root, it)
+            try:
+                raw, line = extract.extract_fn(root, it)
+            except Inconclusive:
+                if it.get("optional"):
+                    meta.setdefault("optional_absent", []).append(it.get("qual", it["name"]))
+                    continue
+                raise
             txt = extract.strip_inner_attrs_and_comments(raw)
             txt, rlog = extract.apply_rewrites(txt, it.get("rewrites"), "fn " + it["name"])
             txt = extract.transform_fn(txt, it)
@@ -155,6 +161,11 @@ def check_unit(name, canary=True, timeout=600):
                     dflt = obls
         errors.append({"fn": owner, "obls": tagged or dflt, "line": prim[0]["line_start"], "msg": msg,
                        "label": prim[0].get("label"), "text": lines[prim[0]["line_start"] - 1].strip()[:200] if prim[0]["line_start"] <= len(lines) else ""})
+    VERIF_MSG = re.compile(r"(not satisfied|assertion failed|possible |decreases|Resource limit|rlimit|failed to prove|cannot prove|could not prove|might not|assertion might|loop invariant|unreachable)", re.I)
+    nonverif = [e for e in errors if not VERIF_MSG.search(e["msg"])]
+    if nonverif:
+        # rustc / mode / unsupported-construct errors: the edited code left the subset this unit can take. Never a violation.
+        raise Inconclusive("verus could not process unit %s (compile-stage error in extracted fn %s): %s @ %s" % (name, nonverif[0]["fn"], nonverif[0]["msg"], nonverif[0]["text"]))
     if vr.get("encountered-vir-error") or (not vr.get("success") and not errors) or hard:
         why = "; ".join(hard) or "; ".join(d.get("message", "") for d in diags)[:1500]
         raise Inconclusive("verus could not process unit %s (unsupported construct or extraction problem): %s" % (name, why))
